@@ -590,9 +590,9 @@ func Run(c *core.Ctx) {
 			}
 		}
 	}
-	n := c.Pick(3000, 150000)
+	n := c.Pick(8000, 150000)
 	if c.Race {
-		n = c.Pick(800, 30000)
+		n = c.Pick(2500, 30000)
 	}
 	for k := 0; k < n; k++ {
 		if !c.Take("noise", k) {
@@ -602,18 +602,18 @@ func Run(c *core.Ctx) {
 		s := genScript(r)
 		runScenario(c, "noise", k, s, uint64(r.OneOf(0, 100, 300, 700)), r.U64(), nil)
 	}
-	n = c.Pick(400, 20000)
+	n = c.Pick(1500, 20000)
 	if c.Race {
-		n = c.Pick(100, 3000)
+		n = c.Pick(400, 3000)
 	}
 	for k := 0; k < n; k++ {
 		if c.Take("nested", k) {
 			runNested(c, k)
 		}
 	}
-	n = c.Pick(600, 20000)
+	n = c.Pick(1500, 20000)
 	if c.Race {
-		n = c.Pick(200, 4000)
+		n = c.Pick(500, 4000)
 	}
 	for k := 0; k < n; k++ {
 		if !c.Take("ecal", k) {
